@@ -193,8 +193,9 @@ def normalise_function(fn):
     return new
 
 
-def inline_helpers(fn, methods, max_stmts=8):
-    """Clone of `fn` in which calls `self.h(a, ...)` of small straight-line same-class helpers (assignments / expression statements
+def inline_helpers(fn, methods, max_stmts=8, accept=None):
+    """(`accept`: optional predicate on the helper's name, e.g. private helpers only.)
+    Clone of `fn` in which calls `self.h(a, ...)` of small straight-line same-class helpers (assignments / expression statements
     followed by one final `return E`, no control flow) are replaced by the helper's body: its statements, parameters substituted
     and locals suffixed, are inserted before the calling statement and the call becomes E.  Only calls sitting in simple statements
     (expression, assignment, augmented assignment, return) of a statement list are expanded, one level deep."""
@@ -225,10 +226,13 @@ def inline_helpers(fn, methods, max_stmts=8):
         if not (isinstance(c.func, ast.Attribute) and isinstance(c.func.value, ast.Name) and c.func.value.id == "self" and c.func.attr in methods
                 and methods[c.func.attr] is not fn and not c.keywords and not any(isinstance(a, ast.Starred) for a in c.args)):
             return None
+        if accept is not None and not accept(c.func.attr):
+            return None
         h = methods[c.func.attr]
         if h.args.vararg or h.args.kwarg or h.args.kwonlyargs or h.args.defaults:
             return None
-        params = [a.arg for a in h.args.args[1:]]
+        static = any(isinstance(d, ast.Name) and d.id == "staticmethod" for d in h.decorator_list)
+        params = [a.arg for a in (h.args.args if static else h.args.args[1:])]
         if len(params) != len(c.args):
             return None
         body = [s_ for s_ in h.body if not (isinstance(s_, ast.Expr) and isinstance(s_.value, ast.Constant))]
@@ -281,13 +285,36 @@ def inline_helpers(fn, methods, max_stmts=8):
             if isinstance(st, (ast.Expr, ast.Assign, ast.AugAssign, ast.Return)):
                 calls = [c for c in ast.walk(st) if isinstance(c, ast.Call) and isinstance(c.func, ast.Attribute) and isinstance(c.func.value, ast.Name)
                          and c.func.value.id == "self" and c.func.attr in methods and methods[c.func.attr] is not fn and not c.keywords
-                         and not any(isinstance(a, ast.Starred) for a in c.args)]
+                         and not any(isinstance(a, ast.Starred) for a in c.args) and (accept is None or accept(c.func.attr))]
                 for c in calls[:1]:
                     h = methods[c.func.attr]
                     body = helper_ok(h)
-                    params = [a.arg for a in h.args.args[1:]]
+                    static = any(isinstance(d, ast.Name) and d.id == "staticmethod" for d in h.decorator_list)
+                    params = [a.arg for a in (h.args.args if static else h.args.args[1:])]
                     if body is None or len(c.args) != len(params):
                         continue
+                    # a call inside a comprehension / lambda reads names that are not bound at statement level: the helper can only be
+                    # expanded there as ONE expression (its single-assignment temporaries substituted into the returned value)
+                    nested = any(isinstance(sc, (ast.ListComp, ast.SetComp, ast.DictComp, ast.GeneratorExp, ast.Lambda)) and any(x is c for x in ast.walk(sc))
+                                 for sc in ast.walk(st))
+                    if nested and len(body) > 1:
+                        env_ = {}
+                        okp = True
+                        for s_ in body[:-1]:
+                            if isinstance(s_, ast.Assign) and len(s_.targets) == 1 and isinstance(s_.targets[0], ast.Name) and s_.targets[0].id not in env_:
+                                class E(ast.NodeTransformer):
+                                    def visit_Name(self, n):
+                                        return clone(env_[n.id]) if (n.id in env_ and isinstance(n.ctx, ast.Load)) else n
+                                env_[s_.targets[0].id] = E().visit(clone(s_.value))
+                            else:
+                                okp = False
+                        if not okp:
+                            continue
+
+                        class E2(ast.NodeTransformer):
+                            def visit_Name(self, n):
+                                return clone(env_[n.id]) if (n.id in env_ and isinstance(n.ctx, ast.Load)) else n
+                        body = [ast.Return(value=E2().visit(clone(body[-1].value)))]
                     counter[0] += 1
                     suf = "_h%d" % counter[0]
                     hlocals = set(n.id for s in body for n in ast.walk(s) if isinstance(n, ast.Name) and isinstance(n.ctx, ast.Store))
@@ -522,3 +549,68 @@ def inline_forall_helpers(fn, helpers):
         if hasattr(fn, a):
             setattr(new, a, getattr(fn, a))
     return new
+
+
+def with_private_helpers(mod, qual, max_stmts=8):
+    """The method `Class.name` of `mod` with the calls of the class's private helpers (`self._h(...)`, not dunder) inlined: an extracted
+    private helper is still part of the method that calls it."""
+    cls, _name = qual.rsplit(".", 1)
+    return inline_helpers(mod.func(qual), mod.methods(cls), max_stmts=max_stmts, accept=lambda n_: n_.startswith("_") and not n_.startswith("__"))
+
+
+_OVERRIDDEN = {}
+
+
+def overridden_private_names(root):
+    """Private method names defined in more than one class of the tree under analysis (or raising NotImplementedError): `self._h()`
+    may dispatch to another class's definition, so such helpers are never inlined.  One regex scan of miasm/**/*.py per root."""
+    import os
+    import re
+    if root in _OVERRIDDEN:
+        return _OVERRIDDEN[root]
+    count = {}
+    rx = re.compile(r"^[ \t]+def[ \t]+(_[A-Za-z0-9]\w*)[ \t]*\(", re.M)
+    base = os.path.join(root, "miasm")
+    for d, dirs, files in os.walk(base):
+        dirs.sort()
+        for f in files:
+            if not f.endswith(".py"):
+                continue
+            try:
+                with open(os.path.join(d, f), "rb") as fh:
+                    txt = fh.read().decode("utf-8", "replace")
+            except OSError:
+                continue
+            for name in rx.findall(txt):
+                if not name.startswith("__"):
+                    count[name] = count.get(name, 0) + 1
+    _OVERRIDDEN[root] = set(k for k, v in count.items() if v > 1)
+    return _OVERRIDDEN[root]
+
+
+def inline_private_helpers_in_module(tree, max_stmts=8, never=()):
+    """Applied when a file is loaded (sa/repo.Module): in every class, the calls `self._h(...)` of the class's own private helpers
+    (straight-line value helpers and procedures, see inline_helpers) are expanded in the methods that make them.  The helper methods
+    themselves stay in the class.  Returns the number of methods rewritten."""
+    n = 0
+    def abstract(h):
+        return any(isinstance(x, ast.Raise) and x.exc is not None and "NotImplementedError" in ast.dump(x.exc) for x in ast.walk(h))
+    priv0 = lambda name: name.startswith("_") and not name.startswith("__") and name not in never
+    for cls in [c for c in ast.walk(tree) if isinstance(c, ast.ClassDef)]:
+        own = dict((st.name, st) for st in cls.body if isinstance(st, ast.FunctionDef))
+        priv = lambda name, own=own: priv0(name) and name in own and not abstract(own[name])
+        methods = dict((st.name, st) for st in cls.body if isinstance(st, ast.FunctionDef))
+        if not any(priv(k) for k in methods):
+            continue
+        for i, st in enumerate(cls.body):
+            if not isinstance(st, ast.FunctionDef):
+                continue
+            if not any(isinstance(c, ast.Call) and isinstance(c.func, ast.Attribute) and isinstance(c.func.value, ast.Name) and c.func.value.id == "self"
+                       and priv(c.func.attr) and c.func.attr in methods and methods[c.func.attr] is not st for c in ast.walk(st)):
+                continue
+            before = ast.dump(st)
+            new = inline_helpers(st, methods, max_stmts=max_stmts, accept=priv)
+            if ast.dump(new) != before:
+                cls.body[i] = new
+                n += 1
+    return n
